@@ -497,6 +497,9 @@ func famTyped(dir string, seed int64, tier string) {
 	wU := newCaseWriter(dir, "unmarshal", "Corr_marshal", "unmarshal_case", "check_unmarshal", 120, repU)
 	r := newRand(seed, "typed")
 	reg := coqRegistry()
+	repP := newReport("utaps", seed, tier)
+	repP.Rule = "(target type, tokens, strict?) through TapUnmarshal with a recording tap: round-trip streams, streams into mutated targets, garbled / truncated streams, hand-made edge streams; observed = result value or (error class, first path attached to the error), and the tap log (ctx.Path, token kind, target kind); non-trivial = at least 2 taps; distinct by case text"
+	utapsW = newCaseWriter(dir, "utaps", "Corr_utaps", "utaps_case", "check_utaps", 100, repP)
 
 	n := 500
 	if thorough {
@@ -601,6 +604,9 @@ func famTyped(dir string, seed int64, tier string) {
 		if len(ts) < 400 {
 			wU.add(fmt.Sprintf("UnmarshalCase %s %s %s %s %s %s %s", coqOpts(false, false, false), reg, tyS, "(zero "+tyS+")", coqTokens(ts), floatTable(ts), uobs(back, eU)), "roundtrip: "+desc, len(ts) >= 2)
 		}
+		if i%3 == 0 && !tied {
+			utapsCase(repP, t, ts, false, "roundtrip: "+desc)
+		}
 		// through the byte codec: writer flavour x reader flavour
 		wf, rf := i%2, i%len(readerFlavours)
 		enc := runEncode(ts, wf, 0)
@@ -637,8 +643,10 @@ func famTyped(dir string, seed int64, tier string) {
 	typedPaths(dir, seed, tier, repM, repU)
 	wM.flush()
 	wU.flush()
+	utapsW.flush()
 	repM.write(dir)
 	repU.write(dir)
+	repP.write(dir)
 }
 
 func truncate(s string, n int) string {
